@@ -320,7 +320,6 @@ Definition s3_mark_complete (rc : retry_cfg) (bucket marker : list answer) : out
 
 (* the server of the correspondence runs: a PUT is stored exactly when it is answered with a 2xx status *)
 Definition accepted (s : Z) : bool := (200 <=? s) && (s <? 300).
-Definition error_status (s : Z) : bool := (400 <=? s) && (s <? 600).
 (* is the object in the store after the request: some attempt that was actually made got a 2xx answer *)
 Definition stored_after (fl : list Z) (n : nat) (answers : list answer) : bool :=
   existsb (fun a => match a with AStatus s => accepted s | AFail _ => false end)
